@@ -70,7 +70,7 @@ func errNonNilByConstruction(fn *ssa.Function, v ssa.Value, n sx.Node) (bool, st
 			}
 			// ctx.Err() inside the case that observed ctx.Done()
 			if c.Call.IsInvoke() && c.Call.Method.Name() == "Err" {
-				return doneCaseDominates(fn, c.Call.Value, n)
+				return doneCaseDominates(fn, c.Call.Value, n) || nonNilTested(fn, c, n)
 			}
 			// a value tested non-nil on every path to n
 			return nonNilTested(fn, c, n)
